@@ -758,7 +758,7 @@ def eval_model(m, phs, case):
     dtMax = m.finalTime - m.pData.time[n]
     VmB = [pp.volume.Vm for pp in m.precipitateParameters]
     nucP = [pp.nucleation for pp in m.precipitateParameters]
-    at('computeDTfrom…/getDt')
+    at('computeDTfrom-getDt')
     out = dict(
         dtPSD=float(cs.computeDTfromPSD(n, m.pData.temperature, m.PBM, m.growth, m.dissolutionIndex, m.phases, dtMax)),
         dtNuc=float(cs.computeDTfromNucleationRate(n, m.pData.nucRate, m.phases, dtPrev, dtMax)),
@@ -991,7 +991,7 @@ def run_update(case, order):
     m._growthRate = lambda Y: ([(m.growth[j] if p['dG'] < 0 else gfun(p, m.PBM[j].PSDbounds)) for j, p in enumerate(phs)], Y)
     x = [np.array(p['xnew'], dtype=float) for p in phs]
     at('_updateParticleSizeDistribution'); m._updateParticleSizeDistribution(float(m.pData.time[n]), x)
-    at('computeDTfrom…/getDt after update')
+    at('computeDTfrom-getDt-after-update')
     st = {}
     for j, p in enumerate(phs):
         st[p['name']] = dict(PSD=np.array(m.PBM[j].PSD, dtype=float), bounds=np.array(m.PBM[j].PSDbounds, dtype=float), bins=int(m.PBM[j].bins),
